@@ -601,8 +601,9 @@ class Fxp():
             # n_int = max( np.ceil(np.log2(np.max(np.abs( val*(1 << n_frac) + 0.5 )))).astype(int_dtype) - n_frac, 0)
             
             val_max, val_min = np.max(val), np.min(val)
-            if isinstance(val_max, (np.integer, np.floating)):
-                # narrow NumPy types: scale in Python arithmetic (an int8 / float16 ... product would wrap or overflow)
+            if isinstance(val_max, (np.integer, np.floating)) or (isinstance(val_max, np.ndarray) and val_max.ndim == 0):
+                # narrow NumPy types: scale in Python arithmetic (an int8 / float16 ... product would wrap or overflow);
+                # a 0-d object array (a Decimal scalar, held as an exact rational) is unwrapped too
                 val_max, val_min = val_max.item(), val_min.item()
             if n_frac >= 0:
                 val_max = int(val_max*(1 << n_frac))
